@@ -29,6 +29,13 @@ instance {ε} : Monad (Prog ε) where
   pure := ret
   bind := bind
 
+/-- Drop the emitted events that do not satisfy `keep`. -/
+def filterEmit {ε α} (keep : ε → Bool) : Prog ε α → Prog ε α
+  | ret a => ret a
+  | call t r k => call t r (fun x => filterEmit keep (k x))
+  | draw k => draw (fun x => filterEmit keep (k x))
+  | emit e p => if keep e then emit e (filterEmit keep p) else filterEmit keep p
+
 def req {ε} (t : Tier) (r : Req) : Prog ε Resp := call t r ret
 def token {ε} : Prog ε Bytes := draw ret
 def out {ε} (e : ε) : Prog ε Unit := emit e (ret ())
